@@ -110,6 +110,28 @@ def one_input(args):
         shutil.rmtree(wd, ignore_errors=True)
 
 
+def apalache_worker(workdir: str):
+    """thorough tier: the three obligations of the inductive invariant of the counter abstraction of Worker.tla
+    (spec/apalache/Apa_Worker.tla) - for ANY number of references, peaks and peaksCount"""
+    import subprocess
+    from lib import tlc
+    out = {}
+    spec = os.path.join(os.path.dirname(os.path.dirname(os.path.abspath(__file__))), "..", "spec", "apalache")
+    for name, args in (("Init=>IndInv", ["--init=Init", "--inv=IndInv", "--length=0"]),
+                       ("IndInv/\\Next=>IndInv'", ["--init=IndInit", "--inv=IndInv", "--length=1"]),
+                       ("IndInv=>Inv_Protocol", ["--init=IndInit", "--inv=Inv_Protocol", "--length=0"])):
+        try:
+            p = subprocess.run(["apalache-mc", "check"] + args + ["--out-dir=" + os.path.join(workdir, "apalache-w"), "Apa_Worker.tla"],
+                               cwd=os.path.abspath(spec), stdout=subprocess.PIPE, stderr=subprocess.STDOUT, text=True, timeout=900)
+            ok = "The outcome is: NoError" in p.stdout
+            out[name] = "NoError" if ok else ("Error" if "The outcome is: Error" in p.stdout else "not run: " + p.stdout[-200:])
+        except Exception as e:      # noqa: BLE001   the tool is an extra: its absence is reported, not an error of the check
+            out[name] = "not run: " + repr(e)[:200]
+    if any(v == "Error" for v in out.values()):
+        raise tlc.MachineryError(f"Apalache: an obligation of the inductive invariant of the worker protocol fails: {out}")
+    return out
+
+
 def run_part(ctx: Ctx, mine: str):
     quick = ctx.tier == "quick"
     n = 14 if quick else 200
@@ -139,6 +161,8 @@ def run_part(ctx: Ctx, mine: str):
         elif drift and not failed:
             note["drift"] += 1
             ctx.add_drift(1, {"worker_task": ln["tag"], "drift": drift})
+    if not quick and mine == "C05":
+        note["apalache_inductive_invariant_of_the_protocol_counters"] = apalache_worker(ctx.workdir)
     ctx.notes["worker_protocol"] = note
     if lines:
         ctx.sample({"worker_task": max(lines, key=lambda x: len(x["ev"]))}, limit=5)
